@@ -541,4 +541,33 @@ mod verif_kani {
         }
         kani::cover!(a == b && a.to_bits() != b.to_bits());
     }
+
+    /// axiom_float_bits (hashing of numbers of any magnitude in unit `numcmp`): `f == 0.0` is "the value is zero";
+    /// doubles that are `==` have identical bits unless they are zeros and agree in sign when infinite; an integral
+    /// double is the double of its own integer value; `compare_impl` calls two doubles Equal exactly when both are
+    /// NaN or they are `==`.
+    #[kani::proof]
+    fn c09_float_model_bits() {
+        let (a, b): (f64, f64) = (kani::any(), kani::any());
+        assert!((a == 0.0) == (a.is_finite() && m_trunc_int(a) == 0 && m_frac_sign(a) == 0));
+        if a.is_nan() {
+            assert!(!a.is_finite());
+        }
+        if a == b {
+            if a != 0.0 {
+                assert!(a.to_bits() == b.to_bits());
+            }
+            if !a.is_finite() {
+                assert!(m_sign(a) == m_sign(b));
+            }
+        }
+        if a.is_finite() && m_in_range(a) && m_frac_sign(a) == 0 {
+            assert!((m_trunc_int(a) as f64) == a);
+        }
+        assert!(
+            (StarlarkFloat::compare_impl(a, b) == Ordering::Equal) == ((a.is_nan() && b.is_nan()) || a == b)
+        );
+        kani::cover!(a == b && a != 0.0);
+        kani::cover!(a.is_nan() && b.is_nan() && a.to_bits() != b.to_bits());
+    }
 }
